@@ -5,6 +5,7 @@ import FrappyProofs.Lemmas.DatatypesDenotesM
 import FrappyProofs.Lemmas.DatatypesImport
 import FrappyProofs.Lemmas.RatLawful
 import FrappyProofs.Lemmas.DatatypesCanon
+import FrappyProofs.Lemmas.DatatypesCall
 import FrappyProofs.Lemmas.RatGrid
 import FrappyModel.Generated.C01
 /-
@@ -20,16 +21,29 @@ open Frappy.Spec.C01 Frappy.Datatypes Frappy.Lemmas.C01
 
 variable {F : Type} [FloatOps F] [LawfulFloatOps F]
 
+/-! ## what a parameter may hold
+
+The hypothesis on `prev` in the theorems below is `Shaped dt p` only: tuples inside `p` have the arity of
+the type.  It does NOT require `p` to lie inside the limits — a parameter may hold whatever `__call__`
+returned for a driver update. -/
+
+/-- a value of the value set has the shape -/
+theorem shaped_of_inSet (dt : DType F) (p : PVal F) (h : InSet dt p) : Shaped dt p := inSet_shaped dt p h
+
+/-- whatever `__call__` returned (a driver update, a configured value) has the shape -/
+theorem shaped_of_call (dt : DType F) (w p : PVal F) (h : call dt w = .ok p) : Shaped dt p :=
+  call_shaped dt w none p h
+
 /-! ## never an out-of-set value -/
 
 /-- a value accepted by `validate` (from a driver) lies in the declared value set -/
 theorem validate_sound (dt : DType F) (hwf : dt.WF) (v : PVal F) (prev : Option (PVal F))
-    (hprev : ∀ p, prev = some p → InSet dt p) (r : PVal F) (h : validate dt v prev = .ok r) : InSet dt r :=
+    (hprev : ∀ p, prev = some p → Shaped dt p) (r : PVal F) (h : validate dt v prev = .ok r) : InSet dt r :=
   conv_sound dt v prev r hwf hprev h
 
 /-- a value accepted from the wire (`import_value` then `validate`) lies in the declared value set -/
 theorem accept_sound (dt : DType F) (hwf : dt.WF) (j : JVal F) (prev : Option (PVal F))
-    (hprev : ∀ p, prev = some p → InSet dt p) (r : PVal F) (h : acceptWire dt j prev = .ok r) : InSet dt r := by
+    (hprev : ∀ p, prev = some p → Shaped dt p) (r : PVal F) (h : acceptWire dt j prev = .ok r) : InSet dt r := by
   unfold acceptWire at h
   split at h
   · cases h
@@ -41,7 +55,7 @@ theorem accept_sound (dt : DType F) (hwf : dt.WF) (j : JVal F) (prev : Option (P
 equal (or clamped to a limit from inside the documented tolerance), no string taken as a number or as
 a list of characters, sequences element-wise of equal length, structs key-wise with `previous` -/
 theorem validate_denotes (dt : DType F) (hwf : dt.WF) (v : PVal F) (prev : Option (PVal F))
-    (hprev : ∀ p, prev = some p → InSet dt p) (r : PVal F) (h : validate dt v prev = .ok r) :
+    (hprev : ∀ p, prev = some p → Shaped dt p) (r : PVal F) (h : validate dt v prev = .ok r) :
     Denotes dt prev v r :=
   conv_denotes dt v prev r hwf hprev h
 
@@ -54,7 +68,7 @@ theorem import_denotes (dt : DType F) (j : JVal F) (v : PVal F) (h : importValue
 
 /-- the wire path: the JSON value stands for a Python value `v`, and the accepted value denotes `v` -/
 theorem accept_denotes (dt : DType F) (hwf : dt.WF) (j : JVal F) (prev : Option (PVal F))
-    (hprev : ∀ p, prev = some p → InSet dt p) (r : PVal F) (h : acceptWire dt j prev = .ok r) :
+    (hprev : ∀ p, prev = some p → Shaped dt p) (r : PVal F) (h : acceptWire dt j prev = .ok r) :
     ∃ v, WireDenotes dt j v ∧ Denotes dt prev v r := by
   unfold acceptWire at h
   split at h
@@ -73,18 +87,16 @@ theorem validate_idem (dt : DType F) (hwf : dt.WF) (hgrid : GridExact dt) (r : P
     (hcanon : Canon r) : validate dt r none = .ok r ∧ validate dt r (some r) = .ok r :=
   conv_idem dt r hwf hgrid hin hcanon
 
-/-- what `validate` returns is in canonical form (given that `previous` is) -/
-theorem validate_canon (dt : DType F) (hwf : dt.WF) (v : PVal F) (prev : Option (PVal F))
-    (hprev : ∀ p, prev = some p → Canon p) (r : PVal F) (h : validate dt v prev = .ok r) : Canon r :=
-  conv_canon dt v prev r hwf hprev h
+/-- what `validate` returns is in canonical form, whatever `previous` is -/
+theorem validate_canon (dt : DType F) (hwf : dt.WF) (v : PVal F) (prev : Option (PVal F)) (r : PVal F)
+    (h : validate dt v prev = .ok r) : Canon r :=
+  conv_canon dt v prev r hwf h
 
 /-- "validating an already validated value returns it unchanged" -/
 theorem revalidate_unchanged (dt : DType F) (hwf : dt.WF) (hgrid : GridExact dt) (v : PVal F)
-    (prev : Option (PVal F)) (hprev : ∀ p, prev = some p → InSet dt p ∧ Canon p) (r : PVal F)
+    (prev : Option (PVal F)) (hprev : ∀ p, prev = some p → Shaped dt p) (r : PVal F)
     (h : validate dt v prev = .ok r) : validate dt r none = .ok r ∧ validate dt r (some r) = .ok r :=
-  validate_idem dt hwf hgrid r
-    (validate_sound dt hwf v prev (fun p hp => (hprev p hp).1) r h)
-    (validate_canon dt hwf v prev (fun p hp => (hprev p hp).2) r h)
+  validate_idem dt hwf hgrid r (validate_sound dt hwf v prev hprev r h) (validate_canon dt hwf v prev r h)
 
 /-- the same statement without the grid hypothesis is not a consequence of the float laws (and is false
 for binary64 where `scale` is below the float spacing at the limits; the repaired `ScaledInteger.validate`
@@ -93,11 +105,11 @@ def validate_idem_statement : Prop :=
   ∀ (F : Type) [FloatOps F] [LawfulFloatOps F] (dt : DType F), dt.WF → ∀ (r : PVal F), InSet dt r → Canon r →
     validate dt r none = .ok r ∧ validate dt r (some r) = .ok r
 
-/-- idempotence of the conversion-only path `__call__` (not proved; judged by the monitor `judgeCall` on
-every outcome of the implementation) -/
-def call_idem_statement : Prop :=
-  ∀ (F : Type) [FloatOps F] [LawfulFloatOps F] (dt : DType F), dt.WF → GridExact dt → ∀ (v r : PVal F),
-    call dt v = .ok r → call dt r = .ok r
+/-- the conversion-only path: converting a converted value returns it unchanged.  `GridAll dt`: every
+finite grid value of every scaled type in the tree snaps to itself (holds over `Rat`; for binary64 it can
+fail for grid indices beyond 2^53 — `__call__` has no limits, so the hypothesis is on all grid values) -/
+theorem call_idem (dt : DType F) (hwf : dt.WF) (hgrid : GridAll dt) (v r : PVal F) (h : call dt v = .ok r) :
+    call dt r = .ok r := conv_call_idem dt v none r hwf hgrid h
 
 /-! ## never any other kind of exception -/
 
@@ -152,7 +164,7 @@ def exTree : DType Rat :=
 def exWire : JVal Rat := .obj [("a", .arr [.int 3, .num 7]), ("c", .str "on")]
 def exPrev : PVal Rat := .dict [("a", .tuple []), ("b", .float 2), ("c", .enum "off" 0)]
 def exResult : PVal Rat :=
-  .dict [("a", .tuple [.float (3/10), .float (7/10)]), ("b", .float 2), ("c", .enum "on" 1)]
+  .dict [("b", .float 2), ("a", .tuple [.float (3/10), .float (7/10)]), ("c", .enum "on" 1)]
 
 theorem exTree_wf : exTree.WF := by
   simp only [exTree, DType.WF, DType.WFFields]
@@ -169,13 +181,34 @@ example : ∃ r, acceptWire exTree exWire (some exPrev) = .ok r ∧ InSet exTree
   have hb : (match acceptWire exTree exWire (some exPrev) with
       | .ok r => PVal.same r exResult
       | _ => false) = true := by decide +kernel
-  have hp : ∀ p, some exPrev = some p → InSet exTree p := fun p hp => by
-    injection hp with hp; rw [← hp]; exact exPrev_inSet
+  have hp : ∀ p, some exPrev = some p → Shaped exTree p := fun p hp => by
+    injection hp with hp; rw [← hp]; exact shaped_of_inSet _ _ exPrev_inSet
   cases h : acceptWire exTree exWire (some exPrev) with
   | error e => rw [h] at hb; cases hb
   | ok r =>
     rw [h] at hb
     exact ⟨r, rfl, accept_sound exTree exTree_wf _ _ hp r h, accept_denotes exTree exTree_wf _ _ hp r h, hb⟩
+
+/-- the parameter holds a value outside the limits (member `b = 50`, as a driver may report it — accepted
+by `__call__`, so the hypothesis `Shaped` holds): a request that leaves `b` out is refused, because the
+member taken over must be valid; a request that replaces `b` is accepted -/
+def exHeld : PVal Rat := .dict [("a", .tuple []), ("b", .float 50), ("c", .enum "off" 0)]
+
+example : call exTree exHeld = .ok exHeld → Shaped exTree exHeld := shaped_of_call exTree exHeld exHeld
+
+example : (match call exTree exHeld, acceptWire exTree exWire (some exHeld),
+      acceptWire exTree (.obj [("a", .arr []), ("b", .int 1), ("c", .int 0)]) (some exHeld) with
+    | .ok h, .error .range, .ok _ => PVal.same h exHeld
+    | _, _, _ => false) = true := by
+  decide +kernel
+
+/-- `GridAll` (hypothesis of `call_idem`) holds for the example tree over `Rat` -/
+theorem exTree_gridAll : GridAll exTree := by
+  simp only [exTree, GridAll, GridAllFields, and_true]
+  exact rat_gridAllScaled _ (by decide +kernel)
+
+example : ∀ v r, call exTree v = .ok r → call exTree r = .ok r :=
+  fun v r h => call_idem exTree exTree_wf exTree_gridAll v r h
 
 /-- a rejected request: a JSON string offered to the scaled elements is a bad-value error, not a number -/
 example : (match acceptWire exTree (.obj [("a", .arr [.str "5"]), ("c", .int 1)]) none with
